@@ -116,6 +116,33 @@ func isConnWriteCall(cc *ssa.CallCommon) bool {
 			return true
 		}
 	}
+	// the connection handed, as a writer, to code outside the repository (net.Buffers.WriteTo,
+	// an encoder, a bufio.Writer, ...): whatever that code emits reaches the client
+	if callee := staticCallee(cc); !cc.IsInvoke() && (callee == nil || !inRepo(callee)) && !nameIn(n, "crypto/tls.Server", "crypto/tls.Client") {
+		sig, _ := cc.Value.Type().Underlying().(*types.Signature)
+		if sig != nil {
+			off := 0
+			if sig.Recv() != nil {
+				off = 1
+			}
+			for i, a := range cc.Args {
+				if !(isConnLikeType(a.Type()) || isConnLikeType(strip(a).Type())) {
+					continue
+				}
+				pi := i - off
+				if pi < 0 || pi >= sig.Params().Len() {
+					continue
+				}
+				if it, ok := sig.Params().At(pi).Type().Underlying().(*types.Interface); ok {
+					for m := 0; m < it.NumMethods(); m++ {
+						if it.Method(m).Name() == "Write" {
+							return true
+						}
+					}
+				}
+			}
+		}
+	}
 	return false
 }
 
